@@ -498,8 +498,7 @@ def run_reorg_scenario(sc, res):
     loop = VLoop().activate()
     log = []
     rep = {'family': 'reorg', 'scenario': list(sc)}
-    sig_base = {'family': 'cache-reorg', 'delivery': delivery, 'replaced': k, 'new_chain': 'longer' if longer else 'same-length',
-                'server': mode}
+    sig_base = {'family': 'cache-reorg', 'delivery': delivery, 'replaced': k, 'new_chain': 'longer' if longer else 'same-length'}
     try:
         headers = SyntheticHeaders(':memory:')
         loop.run(headers.open())
@@ -532,12 +531,12 @@ def run_reorg_scenario(sc, res):
                 line = (f'{stage}: tx {tx.id[:12]}.. returned is_verified={tx.is_verified} height={tx.height} '
                         f'position={tx.position}; a supplied proof folds to the current local header there: {ok_proof}')
                 if tx.is_verified and not ok_proof:
-                    res.violation(dict(sig_base, kind='returned-verified-against-replaced-or-missing-header', stage=stage),
+                    res.violation(dict(sig_base, kind='returned-verified-against-replaced-or-missing-header'),
                                   line + f' | scenario {sc}', rep)
                 elif tx.is_verified:
                     res.count('verified_and_consistent')
                 if must_verify.get(tx.id) is not None and not tx.is_verified:
-                    res.violation(dict(sig_base, kind='genuine-proof-rejected', stage=stage),
+                    res.violation(dict(sig_base, kind='genuine-proof-rejected'),
                                   line + f' | scenario {sc}: the server supplied the genuine proof for the local chain', rep)
                 log.append(line)
             return seen
